@@ -2,7 +2,7 @@
 from ..kani import Instance
 
 DIRS = {"fwd": "PatchDirection::Forward", "rev": "PatchDirection::Revert"}
-FLAGS = {"recon": 1, "rollback": 2, "mono": 4, "lowest": 8, "exact": 16}
+FLAGS = {"recon": 1, "rollback": 2, "mono": 4, "lowest": 8, "exact": 16, "back": 32}
 
 
 def shape_s(sh):
